@@ -5626,74 +5626,3 @@ Theorem wf_every_boundary_cond mh os s :
   bind_spec (fun _ => True) -> (0 < mh)%nat -> run_clean (init mh) os = Some s -> wfb s = true.
 Proof. intros HB Hmh H. apply Inv_wfb. apply (Inv_run_clean_cond mh os s HB Hmh H). Qed.
 
-(** ** Witnesses *)
-(* an operation rejected for the height limit leaves the state ill-formed (MaxHeight 6) *)
-Definition h_limit : list op :=
-  [NewVar 1 false; NewMap (Aff 1 1) 0%nat; NewMap (Aff 1 1) 1%nat; NewMap (Aff 1 1) 2%nat;
-   NewMap (Aff 1 1) 3%nat; NewMap (Aff 1 1) 4%nat; NewMap (Aff 1 1) 5%nat; Observe 6%nat].
-
-Theorem rejection_refuted : exists os s, run (init 6) os = Ok s /\ wfb s = false.
-Proof.
-  assert (H : match run (init 6) h_limit with Ok s => negb (wfb s) | _ => false end = true) by (vm_compute; reflexivity).
-  destruct (run (init 6) h_limit) as [s| |] eqn:E; try discriminate.
-  exists h_limit, s. split; [exact E|]. destruct (wfb s); [discriminate|reflexivity].
-Qed.
-
-(* why [op_clean] asks for top-level nodes: observing a node of a discarded bind generation *)
-Definition h_scope_leak : list op :=
-  [NewVar 1 false; NewBind [TMap (Aff 1 1) TX] 0%nat; Observe 2%nat; Stabilize [];
-   SetVar 0%nat 2; Stabilize []; Observe 5%nat].
-
-Theorem scope_leak_refuted : exists os s, run_unrejected (init 16) os = Some s /\ wfb s = false.
-Proof.
-  assert (H : match run_unrejected (init 16) h_scope_leak with Some s => negb (wfb s) | None => false end = true) by (vm_compute; reflexivity).
-  destruct (run_unrejected (init 16) h_scope_leak) as [s|] eqn:E; try discriminate.
-  exists h_scope_leak, s. split; [exact E|]. destruct (wfb s); [discriminate|reflexivity].
-Qed.
-
-(* ... and so does a top-level node that reads a scope node (found by local-prover) *)
-Definition h_scope_read : list op :=
-  [NewVar 1 false; NewBind [TMap (Aff 1 0) TX; TMap (Aff 1 1) TX] 0%nat; Observe 2%nat; Stabilize [];
-   NewMapN Sum [4%nat]; Observe 6%nat; Stabilize []; SetVar 0%nat 2; Stabilize []; AddInput 6%nat 0%nat].
-
-Theorem scope_read_refuted : exists os s, run_unrejected (init 256) os = Some s /\ wfb s = false.
-Proof.
-  assert (H : match run_unrejected (init 256) h_scope_read with Some s => negb (wfb s) | None => false end = true) by (vm_compute; reflexivity).
-  destruct (run_unrejected (init 256) h_scope_read) as [s|] eqn:E; try discriminate.
-  exists h_scope_read, s. split; [exact E|]. destruct (wfb s); [discriminate|reflexivity].
-Qed.
-
-(* why [op_clean] asks [AddInput n a] for [a < n]: a cycle declared while unobserved is not detected *)
-Definition h_cycle : list op :=
-  [NewMapN Sum []; NewMapN Sum [0%nat]; AddInput 0%nat 1%nat; Observe 1%nat].
-
-Theorem unobserved_cycle_refuted : exists os s, run_unrejected (init 16) os = Some s /\ wfb s = false.
-Proof.
-  assert (H : match run_unrejected (init 16) h_cycle with Some s => negb (wfb s) | None => false end = true) by (vm_compute; reflexivity).
-  destruct (run_unrejected (init 16) h_cycle) as [s|] eqn:E; try discriminate.
-  exists h_cycle, s. split; [exact E|]. destruct (wfb s); [discriminate|reflexivity].
-Qed.
-
-(* non-vacuity: a clean history with binds (nested, re-run, released) *)
-Definition h_binds : list op :=
-  [NewVar 1 false; NewBind [TMap (Aff 1 1) TX; TBind [TRet 3; TX] (TMap (Aff 2 1) TX)] 0%nat; Observe 2%nat;
-   Stabilize []; SetVar 0%nat 2; Stabilize []; SetVar 0%nat 3; Stabilize []; Unobserve 3%nat].
-
-Theorem clean_history_with_binds : exists s, run_clean (init 16) h_binds = Some s /\ wfb s = true.
-Proof.
-  assert (H : match run_clean (init 16) h_binds with Some s => wfb s | None => false end = true) by (vm_compute; reflexivity).
-  destruct (run_clean (init 16) h_binds) as [s|] eqn:E; try discriminate.
-  exists s. split; [reflexivity|exact H].
-Qed.
-
-Definition h_static : list op :=
-  [NewVar 1 false; NewVar 2 true; NewMap2 (Lin2 1 2 0) 0%nat 1%nat; NewCutoff CParity 2%nat; Observe 3%nat;
-   Stabilize []; SetVar 0%nat 5; Stabilize [(2%nat, WFn, AFail FErr)]; Stabilize []; Unobserve 4%nat].
-
-Theorem clean_bindfree_history : exists s,
-  forallb op_nobind h_static = true /\ run_clean (init 16) h_static = Some s.
-Proof.
-  assert (H : match run_clean (init 16) h_static with Some s => true | None => false end = true) by (vm_compute; reflexivity).
-  destruct (run_clean (init 16) h_static) as [s|] eqn:E; try discriminate.
-  exists s. split; reflexivity.
-Qed.
